@@ -63,18 +63,18 @@ Definition func_call_result {W : Type} (o : option (outcome W)) : Z :=
 
 Theorem C15_func_status :
   forall (W : Type) (run_line : W -> str -> W * list Z) (for_words : W -> str -> W * list str)
-         (set_var : W -> str -> str -> W) (eoe : W -> bool) (n : nat),
-  (forall w, eoe w = false) ->
+         (set_var : W -> str -> str -> W) (eoe : W -> bool) (e : bool) (n : nat),
+  (forall w, eoe w = e) ->
   forall b, wf_block b = true -> forall d w r txt, (depth_block b < d)%nat ->
   func_call_result (Some (run_exp W run_line for_words set_var eoe n d (TNode r txt (kids_of_block b)) false w)) =
-  match sem_block W run_line for_words set_var n b false w with
+  match sem_block W run_line for_words set_var e n b false w with
   | Done _ crs _ _ => last_or_zero crs
   | _ => 0%Z
   end.
 Proof.
-  intros W run_line for_words set_var eoe n He b Hwf d w r txt Hd.
-  rewrite (ScriptProofs.run_exp_sem W run_line for_words set_var eoe n He b Hwf d false w r txt Hd).
-  destruct (sem_block W run_line for_words set_var n b false w); reflexivity.
+  intros W run_line for_words set_var eoe e n He b Hwf d w r txt Hd.
+  rewrite (ScriptProofs.run_exp_sem W run_line for_words set_var eoe e n He b Hwf d false w r txt Hd).
+  destruct (sem_block W run_line for_words set_var e n b false w); reflexivity.
 Qed.
 
 (** 3. set -e. In a flat script (commands only) the transcribed loop, with
@@ -88,9 +88,36 @@ Theorem C15_sete_flat :
   let '(w1, crs) := run_until_fail W run_line lines w in Done w1 (acc ++ crs) false false.
 Proof. exact flat_set_e. Qed.
 
-(** ... but inside an if / loop body the early return only leaves that body:
-    set -e / if true / false / echo in-if / fi / echo after-if
-    runs `echo after-if` after the failure and ends with status 0. *)
+(** 3a. set -e, nested bodies (FULL, since 05253ef): with exit_on_error on, the transcribed
+    interpreter on the ideal tree of ANY well-formed script is the structured semantics with
+    e = true, in which the first statement whose last pipeline failed -- inside any nesting of
+    if / for / while bodies -- ends every enclosing block and loop, hence the script, and the
+    status list ends with the failing status. (Instance e = true of C14_interp.) *)
+Theorem C15_sete :
+  forall (W : Type) (run_line : W -> str -> W * list Z) (for_words : W -> str -> W * list str)
+         (set_var : W -> str -> str -> W) (eoe : W -> bool) (n : nat),
+  (forall w, eoe w = true) ->
+  forall b, wf_block b = true ->
+  forall d in_loop w r txt, (depth_block b < d)%nat ->
+  run_exp W run_line for_words set_var eoe n d (TNode r txt (kids_of_block b)) in_loop w =
+  sem_block W run_line for_words set_var true n b in_loop w.
+Proof. intros W rl fw sv eoe n H. exact (ScriptProofs.run_exp_sem W rl fw sv eoe true n H). Qed.
+
+(** what "stops" means, on the reference semantics: a block whose first statement's last
+    pipeline failed runs nothing else *)
+Theorem C15_sete_stops :
+  forall (W : Type) (run_line : W -> str -> W * list Z) (for_words : W -> str -> W * list str)
+         (set_var : W -> str -> str -> W) (n : nat) s rest in_loop w w1 crs c b,
+  sem_stmt W run_line for_words set_var true n s in_loop w = Done w1 crs c b ->
+  last_is_nonzero crs = true ->
+  sem_block W run_line for_words set_var true n (BCons s rest) in_loop w = Done w1 crs false false.
+Proof.
+  intros W rl fw sv n s rest il w w1 crs c b H Hl.
+  rewrite ScriptProofs.sem_block_cons, H. unfold then_, stops. rewrite Hl. reflexivity.
+Qed.
+
+(** regression instance (the replay of the defect fixed in 05253ef):
+    set -e / if true / false / echo in-if / fi / echo after-if   ends at `false`, status 1. *)
 Definition sete_script : str := S2 "set -e
 if true
 false
@@ -108,19 +135,17 @@ Definition se_result : option (outcome (list str * bool)) :=
 Definition sete_full : Prop :=
   se_result = Some (Done ([S2 "set -e"; S2 "true"; S2 "false"], true) [0%Z; 1%Z] false false).
 
-Theorem C15_sete_nested_refuted :
-  se_result = Some (Done ([S2 "set -e"; S2 "true"; S2 "false"; S2 "echo after-if"], true) [0%Z; 1%Z; 0%Z] false false)
-  /\ ~ sete_full.
-Proof. split; [vm_compute; reflexivity|]. unfold sete_full. vm_compute. discriminate. Qed.
+Example C15_sete_nested_regression : sete_full.
+Proof. vm_compute. reflexivity. Qed.
 
 (** 3b. set -e with function calls and `source`: exit_on_error and the function table are shell
     state threaded through run_script / run_lines / try_run_func (Model/ShellScript.v), the flag
-    being reset where the code resets it (end of run_script). INSTANCES computed on that model
+    saved at the start of run_script and restored at its end. INSTANCES computed on that model
     (the unbounded statement over all flat scripts with calls is NOT proved; the model is tied to
     the binary by layer L2b on every run, 120 / 600 generated scripts):
     A  a successful call between `set -e` and the failing command: the script ends at `fail7`, status 7;
     B  the failing command inside the called function: the body is left at once and so is the script;
-    C  (refutation) a `source` between them: run_script's reset clears the flag, `notreached` runs, status 0. *)
+    C  (regression, 3fef4c9) a `source` between them: the caller's flag survives, the script ends at `fail7`. *)
 Definition ex_ext (l : str) : Z := if str_eqb l (S2 "fail7") then 7%Z else 0%Z.
 Definition ex_files (p : str) : option str :=
   if str_eqb p (S2 "a.sh") then Some (S2 "function ok_fn {
@@ -157,16 +182,20 @@ Theorem C15_sete_calls_instances :
   ex_run "b.sh" = ([S2 "one"; S2 "start"; S2 "fail7"], 7%Z).
 Proof. vm_compute. split; reflexivity. Qed.
 
-Theorem C15_sete_source_refuted :
-  ex_run "c.sh" = ([S2 "one"; S2 "in_lib"; S2 "two"; S2 "fail7"; S2 "notreached"], 0%Z).
+Example C15_sete_source_regression :
+  ex_run "c.sh" = ([S2 "one"; S2 "in_lib"; S2 "two"; S2 "fail7"], 7%Z).
 Proof. vm_compute. reflexivity. Qed.
 
-(** The property, in full, and its refutation on the faithful model. *)
+(** The property, in full, and its refutation on the faithful model (what is left: a token
+    holding a newline is not expanded -- first clause, stated for ALL tokens). *)
 Definition C15_full : Prop :=
   (forall args token out, Subst args token out -> expand_args_for_single_token token args = Ok out)
   /\ func_status_full /\ sete_full.
 Theorem C15_refuted : ~ C15_full.
-Proof. intros [_ [_ H]]. exact (proj2 C15_sete_nested_refuted H). Qed.
+Proof.
+  intros [H _]. destruct C15_args_newline_refuted as [args [token [out [HS [Hne He]]]]].
+  rewrite (H args token out HS) in He. injection He as E. exact (Hne E).
+Qed.
 
 (** Function table: both header spellings, names with - and _, body lines kept verbatim. *)
 Example C15_function_table :
@@ -202,7 +231,8 @@ Print Assumptions C15_args_newline_refuted.
 Print Assumptions C15_func_status.
 Print Assumptions C15_func_status_list.
 Print Assumptions C15_sete_flat.
-Print Assumptions C15_sete_nested_refuted.
+Print Assumptions C15_sete.
+Print Assumptions C15_sete_stops.
 Print Assumptions C15_refuted.
 Print Assumptions C15_sete_calls_instances.
-Print Assumptions C15_sete_source_refuted.
+
